@@ -97,3 +97,26 @@ IBT(vec, VEC(a), VEC(b), (mk_vec(idx, nb)))
 IBT(arr2_arr3, (mk_arr<size_t,2>(a)), (mk_arr<size_t,3>(b)), (mk_arr<size_t,3>(idx)))
 IBT(arr3_arr3, (mk_arr<size_t,3>(a)), (mk_arr<size_t,3>(b)), (mk_arr<size_t,3>(idx)))
 IBT(arr1_arr4, (mk_arr<size_t,1>(a)), (mk_arr<size_t,4>(b)), (mk_arr<size_t,4>(idx)))
+
+// ---- mixed kinds named by the property: compile-time constant shape with a run-time one, clipped-integer shape with a fixed one ----
+using namespace nm::literals;
+KERNEL int K(k_bs_ct213_sv)(const size_t*, size_t, const size_t* b, size_t nb, size_t* out, size_t* nout){
+  return put_maybe(ix::broadcast_shape(nmtools_tuple{2_ct,1_ct,3_ct}, mk_sv<size_t,4>(b,nb)), out, nout); }
+KERNEL int K(k_bs_sv_ct213)(const size_t* a, size_t na, const size_t*, size_t, size_t* out, size_t* nout){
+  return put_maybe(ix::broadcast_shape(mk_sv<size_t,4>(a,na), nmtools_tuple{2_ct,1_ct,3_ct}), out, nout); }
+KERNEL int K(k_bs_ct2323_sv)(const size_t*, size_t, const size_t* b, size_t nb, size_t* out, size_t* nout){
+  return put_maybe(ix::broadcast_shape(nmtools_tuple{2_ct,3_ct,2_ct,3_ct}, mk_sv<size_t,4>(b,nb)), out, nout); }
+KERNEL int K(k_bs_ct213_arr2)(const size_t*, size_t, const size_t* b, size_t, size_t* out, size_t* nout){
+  return put_maybe(ix::broadcast_shape(nmtools_tuple{2_ct,1_ct,3_ct}, mk_arr<size_t,2>(b)), out, nout); }
+using cl4_t = nm::clipped_size_t<4>;
+KERNEL int K(k_bs_cl2_arr3)(const size_t* a, size_t, const size_t* b, size_t, size_t* out, size_t* nout){
+  nmtools_array<cl4_t,2> ca{cl4_t(a[0]), cl4_t(a[1])};
+  return put_maybe(ix::broadcast_shape(ca, mk_arr<size_t,3>(b)), out, nout); }
+KERNEL int K(k_bs_arr3_cl2)(const size_t* a, size_t, const size_t* b, size_t, size_t* out, size_t* nout){
+  nmtools_array<cl4_t,2> cb{cl4_t(b[0]), cl4_t(b[1])};
+  return put_maybe(ix::broadcast_shape(mk_arr<size_t,3>(a), cb), out, nout); }
+
+// ---- larger dims: static_vector<size_t,8> ----
+KERNEL int K(k_bs_sv8_sv8)(const size_t* a, size_t na, const size_t* b, size_t nb, size_t* out, size_t* nout){
+  return put_maybe(ix::broadcast_shape(mk_sv<size_t,8>(a,na), mk_sv<size_t,8>(b,nb)), out, nout); }
+BS3(sv8, (mk_sv<size_t,8>(a,na)), (mk_sv<size_t,8>(b,nb)), (mk_sv<size_t,8>(c,nc)))
